@@ -136,6 +136,12 @@ pub fn gen(rng: &mut Rng, n: usize, out: &mut Vec<String>) {
             if out.len() >= n {
                 break;
             }
+            if rng.chance(1, 10) {
+                if let Some(l) = emis_case(&s, rng, stranger) {
+                    out.push(l);
+                }
+                continue;
+            }
             if rng.chance(1, 12) {
                 if let Some(l) = endfl_case(&s, rng, stranger) {
                     out.push(l);
@@ -540,6 +546,77 @@ fn endfl_case(s: &Scen, rng: &mut Rng, stranger: Pubkey) -> Option<String> {
     let head = toks.join(" ");
     match w.exec(&ixn) {
         Ok(()) => Some(format!("{} => ok {}", head, w.marginfi_account(&acct_key).account_flags)),
+        Err(ExecErr::Custom(code)) if code >= 6000 => Some(format!("{} => err {}", head, code)),
+        Err(ExecErr::Panic) => Some(format!("{} => panic", head)),
+        Err(_) => None,
+    }
+}
+
+/// `wd.emis`: the REAL lending_account_withdraw_emissions through dispatch on a bank whose emissions were set up by the real
+/// lending_pool_setup_emissions (any rate, small and large pools, deposit and / or debt side active), after some time has passed,
+/// for the owner or someone else, on flagged accounts, in a paused group.
+///   amount field = 1 (the bank's own emissions mint is passed); `=> ok <16 slots x 7> <bank 16> last_update <tokens paid> <window 3>`
+fn emis_case(s: &Scen, rng: &mut Rng, stranger: Pubkey) -> Option<String> {
+    use marginfi_type_crate::constants::{EMISSIONS_FLAG_BORROW_ACTIVE, EMISSIONS_FLAG_LENDING_ACTIVE};
+    let mut cands = vec![];
+    for (ui, us) in s.users.iter().enumerate() {
+        let a = s.w.marginfi_account(&us.acct);
+        for (bi, h) in s.banks.iter().enumerate() {
+            if a.lending_account.get_balance(&h.bank).is_some() { cands.push((ui, bi)); }
+        }
+    }
+    let (u, b) = if !cands.is_empty() && rng.chance(9, 10) { *rng.pick(&cands) } else { (rng.below(s.users.len() as u64) as usize, rng.below(s.banks.len() as u64) as usize) };
+    let h = s.banks[b];
+    let mut w = s.w.clone();
+    let acct_key = s.users[u].acct;
+    let emint = w.add_mint(crate::world::TokenKind::Spl, *rng.pick(&[6u8, 9, 0]));
+    let tp = w.token_program_of(&emint);
+    let total: u64 = match rng.below(4) { 0 => 1 + rng.below(50), 1 => 1_000 + rng.below(1_000_000), _ => 1_000_000_000 + rng.below(1_000_000_000_000) };
+    let rate: u64 = match rng.below(4) { 0 => 1 + rng.below(1000), 1 => 1_000_000_000 * (1 + rng.below(1000)), 2 => rng.below(u32::MAX as u64) * 1000, _ => 1_000_000 * (1 + rng.below(100)) };
+    let fl = *rng.pick(&[EMISSIONS_FLAG_LENDING_ACTIVE, EMISSIONS_FLAG_BORROW_ACTIVE, EMISSIONS_FLAG_LENDING_ACTIVE | EMISSIONS_FLAG_BORROW_ACTIVE]);
+    let funding = w.add_token_account(emint, s.admin, u64::MAX / 4);
+    if w.exec(&ix::setup_emissions(&h, s.admin, emint, funding, tp, fl, rate, total)).is_err() { return None; }
+    let (vault, _) = ix::emissions_vault_pda(&h.bank, &emint);
+    w.advance(*rng.pick(&[0i64, 1, 60, 3600, 86400, 31_536_000]));
+    // an earlier claim now and then (real instruction), then more time
+    if rng.chance(1, 3) {
+        let _ = w.exec(&ix::settle_emissions(&h, acct_key));
+        w.advance(*rng.pick(&[1i64, 3600, 604800]));
+    }
+    let mut signer = s.users[u].wallet;
+    for _ in 0..(if rng.chance(2, 3) { 0 } else { 1 }) {
+        match rng.below(5) {
+            0 => {
+                let _ = w.exec(&ix::panic_pause(s.fee_admin));
+                let _ = w.exec(&ix::propagate_fee_state(s.group));
+            }
+            1 | 2 => {
+                let mut a = w.marginfi_account(&acct_key);
+                a.account_flags |= *rng.pick(&[ACCOUNT_DISABLED, ACCOUNT_IN_FLASHLOAN, ACCOUNT_IN_RECEIVERSHIP, ACCOUNT_FROZEN]);
+                w.set_marginfi_account(&acct_key, &a);
+            }
+            3 => {
+                let mut a = w.marginfi_account(&acct_key);
+                a.group = w.new_key();
+                w.set_marginfi_account(&acct_key, &a);
+            }
+            _ => signer = *rng.pick(&[stranger, s.admin]),
+        }
+    }
+    let dest = w.add_token_account(emint, signer, 0);
+    let ixn = ix::withdraw_emissions(&h, acct_key, signer, emint, vault, dest, tp);
+    let (head, keys) = context_line(s, &w, "wd.emis", &acct_key, &h, signer, h.liquidity_vault, 1, false);
+    match w.exec(&ixn) {
+        Ok(()) => {
+            let a1 = w.marginfi_account(&acct_key);
+            let bank1 = w.bank(&h.bank);
+            let g1 = w.group(&s.group);
+            Some(format!(
+                "{} => ok {} {} {} {} {} {} {}",
+                head, slots_line(&a1, &keys), B::from_bank(&bank1).line(), bank1.last_update, w.token_amount(&dest),
+                g1.deleverage_withdraw_window_cache.daily_limit, g1.deleverage_withdraw_window_cache.withdrawn_today, g1.deleverage_withdraw_window_cache.last_daily_reset_timestamp
+            ))
+        }
         Err(ExecErr::Custom(code)) if code >= 6000 => Some(format!("{} => err {}", head, code)),
         Err(ExecErr::Panic) => Some(format!("{} => panic", head)),
         Err(_) => None,
